@@ -31,6 +31,12 @@ func harness_C10_spool() {
 	dir := qDir()
 	// ---- the message as the SMTP endpoint accepts it: arbitrary bytes parsed by the real header parser ----
 	raw := append(nondetBytes("hdr", n), []byte("\r\n\r\n")...)
+	// bighdr = K: one concrete header of about K KiB (a long folded field between
+	// two short ones), served from the spool after a restart; everything else fixed
+	big := verifParam("bighdr", 0)
+	if big > 0 {
+		raw = c10BigHeader(big)
+	}
 	hdr, err := textproto.ReadHeader(bufio.NewReader(bytes.NewReader(raw)))
 	if err != nil {
 		verifCover("C10.header-rejected-by-parser")
@@ -43,13 +49,15 @@ func harness_C10_spool() {
 	accepted := c10HeaderBytes(hdr)
 
 	sender := "sender@example.net"
-	if nondetBool("nullSender") {
+	if big == 0 && nondetBool("nullSender") {
 		sender = ""
 	}
 	mm := &module.MsgMetadata{ID: "msg1", OriginalFrom: sender, OriginalRcpts: map[string]string{"a@example.org": "orig@example.com"}}
-	mm.SMTPOpts.UTF8 = nondetBool("utf8")
-	mm.SMTPOpts.RequireTLS = nondetBool("requiretls")
-	mm.TLSRequireOverride = nondetBool("tlsoverride")
+	if big == 0 {
+		mm.SMTPOpts.UTF8 = nondetBool("utf8")
+		mm.SMTPOpts.RequireTLS = nondetBool("requiretls")
+		mm.TLSRequireOverride = nondetBool("tlsoverride")
+	}
 	mm.Conn = &module.ConnState{Hostname: "client.example.net", AuthUser: "secret-user", AuthPassword: "secret-password"}
 
 	tgt := &scriptTarget{name: "tgt", partial: true, onlyStatusFaults: true, faultFree: verifParam("faults", 1) == 0}
@@ -91,12 +99,12 @@ func harness_C10_spool() {
 	scanSpool()
 	// ---- attempts ----
 	attempts := 1
-	if nondetBool("retry") {
+	if big == 0 && nondetBool("retry") {
 		attempts = 2
 	}
 	pending := rcpts
 	for k := 1; k <= attempts; k++ {
-		if nondetBool("restart") {
+		if big > 0 || nondetBool("restart") {
 			q = c01Queue(dir, tgt, nil, 3, &c01Wheel{})
 		}
 		// the first attempt in the accepting process works on the in-memory
@@ -176,6 +184,21 @@ func harness_C10_spool() {
 		pending = next
 	}
 	verifCover("C10.end")
+}
+
+func c10BigHeader(kib int) []byte {
+	var b bytes.Buffer
+	b.WriteString("Subject: first\r\nX-Long: start")
+	line := make([]byte, 0, 80)
+	line = append(line, "\r\n "...)
+	for i := 0; i < 61; i++ {
+		line = append(line, byte('a'+i%26))
+	}
+	for b.Len() < kib*1024 {
+		b.Write(line)
+	}
+	b.WriteString("\r\nX-After: last\r\n\r\n")
+	return b.Bytes()
 }
 
 // c10Slot returns the scheduled entry of msg1 (waiting in the wheel or already dispatched).
